@@ -17,6 +17,16 @@ FMulPos(a, b) ==
   IN a1 * b1 + (a1 * b0 + a0 * b1) \div 1000 + (a0 * b0 + ((a1 * b0 + a0 * b1) % 1000) * 1000) \div FS
 FMul(a, b) == IF (a < 0) = (b < 0) THEN FMulPos(FAbs(a), FAbs(b)) ELSE -FMulPos(FAbs(a), FAbs(b))
 (* a / b for fixed-point a, b (b # 0), result fixed point; |a| < 2147        *)
+(* n / d (d > 0) as fixed point without overflowing: integer part, then six      *)
+(* decimals two at a time                                                         *)
+Quot6(n, d) ==
+  LET sgn == IF n < 0 THEN -1 ELSE 1
+      m == IF n < 0 THEN -n ELSE n
+      q0 == m \div d  r0 == m % d
+      d1 == (r0 * 100) \div d  r1 == (r0 * 100) % d
+      d2 == (r1 * 100) \div d  r2 == (r1 * 100) % d
+      d3 == (r2 * 100) \div d
+  IN sgn * (q0 * FS + d1 * 10000 + d2 * 100 + d3)
 Close(a, b, tol) == (a - b <= tol) /\ (b - a <= tol)
 
 AlphaKey(a) == ToString(a)                  \* alpha in permille -> table key
